@@ -535,7 +535,9 @@ fn declare(
 			};
 			unsafe { LLVMSetLinkage(function, linkage) };
 
+			// The main function is called by the C runtime.
 			let callconv = if flags.contains(DeclarationFlag::External)
+				|| flags.contains(DeclarationFlag::Main)
 			{
 				LLVMCallConv::LLVMCCallConv
 			}
@@ -1292,6 +1294,12 @@ impl Generatable for Expression
 						cstr!(""),
 					)
 				};
+				// A call must use the calling convention of its callee,
+				// otherwise its behavior is undefined.
+				unsafe {
+					let callconv = LLVMGetFunctionCallConv(function);
+					LLVMSetInstructionCallConv(result, callconv);
+				}
 				Ok(result)
 			}
 			Expression::InlineBlock { statements, value } =>
